@@ -261,6 +261,48 @@ func (c *Ctx) vmModel() (*vmModel, error) {
 		}
 		m.InlineMethods[fn] = it.fd
 	}
+	// plain functions a step of an arm was moved into, when they work on the machine's block values (the
+	// candidates of a bind, the binding built from them): interpreted in place as well
+	mentions := func(t types.Type) bool {
+		switch u := t.(type) {
+		case *types.Slice:
+			return isNamed(u.Elem(), bclPath, "Block")
+		}
+		return isNamed(t, bclPath, "Block") || isNamed(t, bclPath, "Binding")
+	}
+	for _, it := range c.sortedDecls() {
+		fn, ok := it.obj.(*types.Func)
+		if !ok || it.fd == fd || it.fd.Body == nil || it.fd.Recv != nil || fn.Pkg() == nil || fn.Pkg().Path() != bclPath {
+			continue
+		}
+		sig := fn.Type().(*types.Signature)
+		hit := false
+		for i := 0; i < sig.Results().Len(); i++ {
+			if mentions(sig.Results().At(i).Type()) {
+				hit = true
+			}
+		}
+		if !hit {
+			continue
+		}
+		// only those the machine's code calls
+		called := false
+		for _, md := range m.InlineMethods {
+			walkCalls(md.Body, false, func(call *ast.CallExpr) {
+				if c.callee(call) == types.Object(fn) {
+					called = true
+				}
+			})
+		}
+		walkCalls(fd.Body, false, func(call *ast.CallExpr) {
+			if c.callee(call) == types.Object(fn) {
+				called = true
+			}
+		})
+		if called {
+			m.InlineMethods[fn] = it.fd
+		}
+	}
 	// helpers written as methods of the machine instead of closures: classified the same way, interpreted in place
 	m.MethodRoles = map[types.Object]string{}
 	for _, it := range c.sortedDecls() {
